@@ -242,7 +242,7 @@ class Pipeline(Machine):
                 host.write(rel, data)
 
         for name, size in op["blobs"]:
-            data = world.blob(host.seed, name, size)
+            data = world.blob(host.seed, name, size, envelope_ok=True)
             model["blobs"][name] = data
             model["blob_rel"][name] = "files/" + name
             place("files/" + name, data)
